@@ -153,31 +153,14 @@ func (s *ManifestStream) FileSegmentIterByName(filepath string) <-chan *FileSegm
 }
 
 func firstBlock(offsets []uint64, rangeStart uint64) int {
-	// rangeStart/blockStart is the inclusive lower bound
-	// rangeEnd/blockEnd is the exclusive upper bound
-
-	hi := len(offsets) - 1
-	var lo int
-	i := ((hi + lo) / 2)
-	blockStart := offsets[i]
-	blockEnd := offsets[i+1]
-
-	// perform a binary search for the first block
-	// assumes that all of the blocks are contiguous, so rangeStart is guaranteed
-	// to either fall into the range of a block or be outside the block range entirely
-	for !(rangeStart >= blockStart && rangeStart < blockEnd) {
-		if lo == i {
-			// must be out of range, fail
-			return -1
-		}
-		if rangeStart > blockStart {
-			lo = i
-		} else {
-			hi = i
-		}
-		i = ((hi + lo) / 2)
-		blockStart = offsets[i]
-		blockEnd = offsets[i+1]
+	// offsets[i] is the stream position of block i, offsets[len(blocks)] the
+	// stream length.  Return the block i with offsets[i] <= rangeStart <
+	// offsets[i+1], skipping zero-length blocks, or -1 if rangeStart is past
+	// the end of the stream.
+	n := len(offsets) - 1
+	i := sort.Search(n, func(i int) bool { return offsets[i+1] > rangeStart })
+	if i == n {
+		return -1
 	}
 	return i
 }
